@@ -66,8 +66,10 @@ def gen(prop, stream, tier, avoid):
     objs = []
     for _ in range(nobj):
         kind = rng.weighted([("curve", 5), ("surface", 4), ("volume", 1.5)])
-        spec = shapes.gen_shape(rng, kind=kind, max_size=7 if kind == "curve" else 5,
-                                max_degree=4 if kind == "curve" else 3)
+        nd_ = shapes.DIRS[kind]
+        degs = [rng.pick([1, 2, 2, 3, 3, 3, 4]) if kind == "curve" else rng.pick([1, 2, 2, 3, 3] if kind == "surface" else [1, 2, 2])
+                for _ in range(nd_)]
+        spec = shapes.gen_shape(rng, kind=kind, max_size=8 if kind == "curve" else (6 if kind == "surface" else 4), degrees=degs)
         spec["delta"] = rng.pick([0.5, 0.25, 0.2]) if kind != "curve" else rng.pick([0.25, 0.125, 0.1])
         objs.append(spec)
     nops = kn.pick([2, 3, 4, 5, 6, 8, 10, 12, 16])
@@ -87,8 +89,8 @@ def gen(prop, stream, tier, avoid):
             ndirs = 1 if rng.chance(0.7) else rng.randint(1, nd)
             dirs = {}
             for d in rng.sample(range(nd), ndirs):
-                at = ["knot", rng.randrange(8)] if rng.chance(0.35) else ["new", rng.randint(1, 127)]
-                dirs[str(d)] = {"at": at, "num": rng.pick([1, 1, 1, 2, 2, 3, 4])}
+                at = ["knot", rng.randrange(8)] if rng.chance(0.45) else ["new", rng.randint(1, 127)]
+                dirs[str(d)] = {"at": at, "num": rng.pick([1, 1, 2, 2, 3, 4])}
             ops.append({"op": "insert", "obj": o, "via": rng.pick(["method", "operations"]), "dirs": dirs})
         elif k == "read":
             ops.append({"op": "read", "obj": o})
